@@ -214,6 +214,15 @@ func (e *Engine) setupIntrinsics() {
 
 	// ---- time
 	I["time.Now"] = func(e *Engine, s *State, t *Thread, f *Frame, args []Value, _ ssa.Value) (Value, bool) {
+		if paramInts["concretenow"] != 0 {
+			// deterministic clock: 2026-01-01 plus 1 ms per call
+			if s.now == nil {
+				base := new(big.Int).Mul(big.NewInt(62135596800+1767225600), big.NewInt(1000000000))
+				s.now = BVConstBig(96, base)
+			}
+			s.now = BVAdd(s.now, BVConst(96, 1000000))
+			return ret(mkTime(s.now))
+		}
 		d := NewVar("nowdelta", SBV(40))
 		s.nondets = append(s.nondets, NondetRec{Kind: "now", Var: d, Site: e.pos(e.curInstr(s))})
 		if s.now == nil {
